@@ -443,6 +443,11 @@ theorem text_cost_le (ts : List Token) : runTextCost TState.init ts ≤ ts.lengt
   have := runTextCost_le ts 0 TState.init textBound_init
   simpa using this
 
+/-- … and they are not linear either: `<a>` followed by `k` references copies at least `5·k²/2` characters -/
+theorem text_cost_is_quadratic (k : Nat) :
+    5 * (k * k) ≤ 2 * runTextCost TState.init (.start nameA [] :: refs k) :=
+  text_cost_quadratic k
+
 example : runCost TState.init (opens 3 ++ strays 3) = 15 := by decide
 example : maxDepth TState.init (opens 3 ++ strays 3) = 3 := by decide
 
@@ -585,5 +590,48 @@ example : ∃ s', runT TState.init ([.decl "doctype html".toList] ++ .start wrap
     ([.end_ "p".toList, .start wrapperName [], .entity "amp".toList, .start "a".toList [], .end_ "b".toList] ++ [])) = .ok s' :=
   after_wrapper_start_never_fails _ _ _ _ (by simp [isOuter])
     (by intro t ht; simp at ht; rcases ht with h | h | h | h | h <;> subst h <;> simp <;> decide) (by simp)
+
+
+/-- `feed_never_raises` on a hostile sequence (stray close first, a start tag with a hostile name, text) -/
+example : ∃ d b, feedTokens [.end_ "a".toList, .start "b<".toList [("/div".toList, none)], .end_ "b<".toList,
+    .data "x".toList] = .doc d b :=
+  feed_never_raises _ (by intro t ht; simp at ht; rcases ht with h | h | h | h <;> subst h <;> decide)
+
+/-- nothing parsed: a declaration, blank text and a stray end tag leave no root, and `getHTML` is the ValueError -/
+example : feedTokens [.decl "DOCTYPE html".toList, .data " \n".toList, .end_ "p".toList]
+    = .doc ⟨some "DOCTYPE html".toList, none⟩ false := by rfl
+example : (⟨some "DOCTYPE html".toList, none⟩ : Doc).html = none := rfl
+
+/-- every formatter class on a multi-root hostile sequence -/
+example (c : Fmt.Class) (ind : Fmt.IndentArg) (ssc : Bool) :
+    ∃ s', Fmt.feed (Fmt.mkCfg c ind ssc)
+      [.data "x".toList, .start "a".toList [], .end_ "q".toList, .startend "a".toList [], .entity "amp".toList] = .ok s' :=
+  formatter_classes_never_raise c ind ssc _
+    (by intro t ht; simp at ht; rcases ht with h | h | h | h | h <;> subst h <;> simp <;> decide)
+
+example : Fmt.docHTML none (({} : Fmt.St).root) = .error .noRoot := rfl
+
+/-- a reading of the new element for the examples: uid = creation index, the valued attributes, no classes -/
+def sampleView : Nat → Str → List Attr → G3.Elem :=
+  fun k n a => ⟨k, n, a.filterMap (fun p => p.2.map (fun v => (p.1, v))), [], []⟩
+
+/-- a reachable configuration with an attribute index, in its initial object state -/
+def sampleIdx : G3.Idx := (G3.Idx.init true true true true).addIndexOn "title".toList
+
+example : G3.IdxOK sampleIdx.resetInternal (G3.IState.reset ⟨TState.init, sampleIdx, []⟩) :=
+  G3.idxOK_reset (G3.Idx.addIndexOn_good (G3.Idx.init_good true true true true) _)
+
+/-- the indexed parser on `<a title=t><b>` `</a>` `<c>`: MultipleRootNodeException in the first pass (as the
+    plain parser), a document after the retry — the attribute index was exercised (`title`) -/
+example : (G3.idxParseStrS sampleView ⟨TState.init, sampleIdx, []⟩
+    [.start "a".toList [("title".toList, some "t".toList)], .start "b".toList [], .end_ "a".toList,
+     .start "c".toList []]).2 = none :=
+  (indexed_parseStr_never_raises sampleView _ (G3.Idx.addIndexOn_good (G3.Idx.init_good true true true true) _) _
+    (by intro t ht; simp at ht; rcases ht with h | h | h | h <;> subst h <;> simp <;> decide)).1
+
+/-- the hypothesis `Good` is needed: with the two dicts of the attribute indexes out of step (a state no
+    sequence of calls reaches) `_indexTag` raises the KeyError -/
+example : G3.Idx.indexTagE { G3.Idx.init true true true true with otherFns := ["title".toList] }
+    ⟨0, "a".toList, [("title".toList, "t".toList)], [], []⟩ = none := by rfl
 
 end AHP.C03
